@@ -622,6 +622,52 @@ impl<'a> VisitMut for Rw<'a> {
                         for a in args.iter_mut() {
                             self.visit_expr_mut(a);
                         }
+                        // holes with a name and/or a lower-hex spec: write!(f, "0x{a:02x}{:x}", b) -- `{}` / `{name}` take a string-like
+                        // argument, `{:x}` / `{:02x}` / `{name:x}` / `{name:02x}` a `u8`; anything else is left alone (Verus rejects it)
+                        if args.len() >= 2 {
+                            if let Expr::Lit(ExprLit { lit: Lit::Str(fs), .. }) = &args[1] {
+                                let fmt = fs.value();
+                                if let Some(pieces) = parse_fmt_pieces(&fmt) {
+                                    let special = pieces.iter().any(|p| matches!(p, FmtPiece::Hole { name, spec } if name.is_some() || !spec.is_empty()));
+                                    let n_pos = pieces.iter().filter(|p| matches!(p, FmtPiece::Hole { name: None, .. })).count();
+                                    if special && n_pos == args.len() - 2 {
+                                        let f = &args[0];
+                                        let mut parts: Vec<Expr> = vec![];
+                                        let mut next = 2;
+                                        for pc in &pieces {
+                                            match pc {
+                                                FmtPiece::Lit(l) => {
+                                                    let l = LitStr::new(l, Span::call_site());
+                                                    parts.push(parse_quote!(#l));
+                                                }
+                                                FmtPiece::Hole { name, spec } => {
+                                                    let a: Expr = match name {
+                                                        Some(n) => {
+                                                            let id = format_ident!("{}", n);
+                                                            parse_quote!(#id)
+                                                        }
+                                                        None => {
+                                                            let a = args[next].clone();
+                                                            next += 1;
+                                                            a
+                                                        }
+                                                    };
+                                                    if spec.is_empty() {
+                                                        parts.push(parse_quote!(crate::sp::VpAsStr::vp_as_str(&#a)));
+                                                    } else {
+                                                        let w: usize = if spec == "02x" { 2 } else { 0 };
+                                                        parts.push(parse_quote!(crate::sp::VpAsStr::vp_as_str(&crate::sp::vp_hex_u8(#a, #w))));
+                                                    }
+                                                }
+                                            }
+                                        }
+                                        self.log.push(format!("N6 write!({}, {:?}, ..) -> vp_write_parts (named / lower-hex holes)", f.to_token_stream(), fmt));
+                                        *e = parse_quote!(crate::sp::vp_write_parts(#f, &[#(#parts),*]));
+                                        return;
+                                    }
+                                }
+                            }
+                        }
                         // general form: write!(f, "lit{}lit{}..", a, b, ..) with only `{}` holes and string-like arguments
                         // -> vp_write_parts(f, &[ "lit", a, "lit", b, .. ])
                         if args.len() >= 3 {
@@ -1258,6 +1304,59 @@ impl<'a> Planter<'a> {
             block.stmts.insert(0, m);
         } else {
             *block = parse_quote!({ vp_contract_nobody!(#gid); });
+        }
+    }
+}
+
+enum FmtPiece {
+    Lit(String),
+    Hole { name: Option<String>, spec: String },
+}
+
+/// a format string as literal pieces and holes; None for anything but `{}`, `{name}`, `{:x}`, `{:02x}`, `{name:x}`, `{name:02x}`
+fn parse_fmt_pieces(fmt: &str) -> Option<Vec<FmtPiece>> {
+    if fmt.contains("{{") || fmt.contains("}}") {
+        return None;
+    }
+    let mut out = vec![];
+    let mut rest = fmt;
+    loop {
+        match rest.find('{') {
+            None => {
+                if rest.contains('}') {
+                    return None;
+                }
+                if !rest.is_empty() {
+                    out.push(FmtPiece::Lit(rest.to_string()));
+                }
+                return Some(out);
+            }
+            Some(p) => {
+                if rest[..p].contains('}') {
+                    return None;
+                }
+                if p > 0 {
+                    out.push(FmtPiece::Lit(rest[..p].to_string()));
+                }
+                let q = rest[p..].find('}')? + p;
+                let inner = &rest[p + 1..q];
+                let (name, spec) = match inner.split_once(':') {
+                    Some((n, sp)) => (n, sp),
+                    None => (inner, ""),
+                };
+                if !(spec.is_empty() || spec == "x" || spec == "02x") {
+                    return None;
+                }
+                let name = if name.is_empty() {
+                    None
+                } else if name.chars().all(|c| c.is_ascii_alphanumeric() || c == '_') && !name.chars().next().unwrap().is_ascii_digit() {
+                    Some(name.to_string())
+                } else {
+                    return None;
+                };
+                out.push(FmtPiece::Hole { name, spec: spec.to_string() });
+                rest = &rest[q + 1..];
+            }
         }
     }
 }
